@@ -71,6 +71,7 @@ type Scn struct {
 	Level      int               `json:"level"`           // nesting level (0 = root)
 	History    []map[string]string `json:"history,omitempty"` // c10: parameter dictionaries of successive verifications on the SAME objects
 	Reps       int               `json:"reps,omitempty"`    // c10: repetitions of every verification
+	CertStep2  int               `json:"cert_step2,omitempty"` // c10: index+1 of a second step with a certificate constraint that the SAME certificate does NOT meet (other common name)
 	CertStep   int               `json:"cert_step,omitempty"` // c10: index+1 of the step that also authorises a certificate functionary
 	Permissive bool              `json:"permissive,omitempty"` // all artifact rules are ALLOW *: only the agreement of counted links can reject
 	HashAlg    string            `json:"hash_alg,omitempty"`   // digest algorithm recorded in the step links (default sha256; inspections always record sha256)
@@ -255,6 +256,10 @@ func buildLayout(sc *Scn, runDirPrefix string) intoto.Layout {
 				s.CertificateConstraints[0].DNSNames = []string{"z.example.org", "a.example.org"}
 			}
 			l.RootCas = map[string]intoto.Key{certCtx.root.Key.KeyID: certCtx.root.Key}
+		}
+		if sc.CertStep2 == i+1 && certCtx != nil {
+			s.CertificateConstraints = []intoto.CertificateConstraint{{CommonName: "bob", Roots: []string{"*"},
+				DNSNames: []string{}, Emails: []string{}, Organizations: []string{}, URIs: []string{}}}
 		}
 		l.Steps = append(l.Steps, s)
 	}
@@ -483,7 +488,7 @@ func writeChain(sc *Scn, dir string, start map[string]string, r *lib.Rng) built 
 			mustSign(m, kp.Priv)
 			must(m.Dump(filepath.Join(dir, linkFile(st.Name, kp.Pub.KeyID))))
 		}
-		if sc.CertStep == i+1 && certCtx != nil {
+		if (sc.CertStep == i+1 || sc.CertStep2 == i+1) && certCtx != nil {
 			m := wrap(sc, mkLink(st.Name, mats, prods, "alice"))
 			mustSign(m, certCtx.leaf.Key)
 			must(m.Dump(filepath.Join(dir, linkFile(st.Name, certCtx.leaf.Key.KeyID))))
@@ -687,7 +692,7 @@ var defects = map[string][]string{
 	"c06": {"sub-expired", "sub-undated", "sub-rfc3339-offset", "none", "expired-long", "expired-2s", "future-1h", "garbage", "empty", "rfc3339-offset", "date-only", "year-9999", "fraction", "lowercase"},
 	"c08": {"sub-insp-killed-by-signal", "sub-same-step-name-upper-link-missing", "sub-same-step-name-both-present", "sub-wide-9", "sub-defective-beside-good-link-large", "sub-insp-named-like-first-step", "sub-insp-named-like-last-step", "sub-defective-beside-good-link", "sub-ok", "sub-ok", "sub-badsig", "sub-expired", "sub-missing-link", "sub-rule-violation", "sub-unauthorised", "sub-nested", "sub-nested-defect", "sub-summary-mismatch", "sub-summary-mismatch-other-algorithm"},
 	"c10": {"history-same-params", "history-diff-params", "history-no-params", "history-mixed", "mixed-cert-key", "mixed-cert-key", "mixed-cert-key-unsorted", "summary-byproducts", "direct-unclean",
-		"history-empty-command-argument", "history-dir-relative-inspection-fails-midway", "mixed-cert-key-dir", "history-layout-keys-share-short-id", "history-four-links-two-groups", "history-dir-inspection-relative-command", "history-caller-intermediates-spare-capacity", "history-multi-alg", "history-multi-alg-mismatch", "history-whitespace-rule", "history-param-value-has-marker", "mixed-cert-key-marker-constraint", "history-threshold-zero"},
+		"history-empty-command-argument", "history-dir-relative-inspection-fails-midway", "mixed-cert-key-dir", "history-layout-keys-share-short-id", "history-four-links-two-groups", "history-dir-inspection-relative-command", "history-caller-intermediates-spare-capacity", "mixed-cert-key-other-step-constraint-mismatch", "history-multi-alg", "history-multi-alg-mismatch", "history-whitespace-rule", "history-param-value-has-marker", "mixed-cert-key-marker-constraint", "history-threshold-zero"},
 	"c09": {"insp-killed-by-signal", "socket-file-added", "unclean-disallow-pattern-product-added", "star-class-pattern-product-added", "dangling-symlink-added", "step-rule-fails-no-inspection-may-run", "symlinked-dir-before-tampered-product", "symlinked-dir-untouched", "product-crlf-rewritten", "product-crlf-rewritten-normalised", "large-product-tampered-tail", "large-product-untouched", "product-added-ignorable-name-0", "product-added-ignorable-name-1", "product-added-ignorable-name-2", "product-added-ignorable-name-3",
 		"product-added-ignorable-name-4", "product-added-ignorable-name-5", "product-added-ignorable-name-6", "product-added-ignorable-name-7",
 		"product-added-ignorable-name-8", "product-added-ignorable-name-9", "product-added-ignorable-name-10", "case-variant-rule-earlier", "product-modified-backslash-decoy", "sha512-chain-product-modified", "escaped-pattern-product-modified", "escaped-pattern-none", "insp-rewrite-same-mtime", "product-all-removed", "require-after-consume", "none", "insp-fail", "insp-fail-255", "insp-missing", "insp-empty", "product-modified", "product-added", "product-removed",
@@ -1146,7 +1151,7 @@ func genScenario(r *lib.Rng, focus string, idx int) *Scn {
 		case "history-mixed":
 			sc.Params = good
 			sc.History = []map[string]string{bad, good, {"OUT": "out", "SRC": "src", "bad name": "x"}, good}
-		case "mixed-cert-key", "mixed-cert-key-unsorted", "mixed-cert-key-marker-constraint", "mixed-cert-key-dir":
+		case "mixed-cert-key", "mixed-cert-key-unsorted", "mixed-cert-key-marker-constraint", "mixed-cert-key-dir", "mixed-cert-key-other-step-constraint-mismatch":
 			sc.CertUnsorted = d == "mixed-cert-key-unsorted"
 			if d == "mixed-cert-key-dir" {
 				// the same through the entry point with a run directory (certificate pools are built there separately)
@@ -1166,6 +1171,21 @@ func genScenario(r *lib.Rng, focus string, idx int) *Scn {
 			sc.CertStep = i + 1
 			sc.Reps = 24
 			sc.History = []map[string]string{sc.Params, sc.Params}
+			if d == "mixed-cert-key-other-step-constraint-mismatch" {
+				// the same certificate also signs a link for ANOTHER step whose constraint names somebody else: being a
+				// functionary of one step says nothing about the other step
+				for len(sc.Steps) < 2 {
+					sc.Steps = append(sc.Steps, StepSpec{Name: fmt.Sprintf("s0_%d", len(sc.Steps)), Keys: []string{pool[0]}, Threshold: 1, Signers: []string{pool[0]}, Op: "create"})
+				}
+				j := (i + 1) % len(sc.Steps)
+				st2 := &sc.Steps[j]
+				st2.Keys = st2.Keys[:1]
+				st2.Signers = st2.Keys[:1]
+				st2.Threshold = 2
+				sc.CertStep2 = j + 1
+				sc.Expect = "reject"
+				sc.Reps = 4
+			}
 		case "history-threshold-zero":
 			// a step without threshold (0): treated as 1 by the verification - which must not write that back into the caller's layout
 			sc.Params = nil
